@@ -47,6 +47,8 @@ Plain(b) == Build(b, Table(b), 2 * Len(Table(b)), Len(Table(b)), Bodies(b))
 RespLen(b) == Len(ResponsesSection(b.exs))
 RespStart(b) == Len(Plain(b)) - 9 - RespLen(b)
 WrapKs(b) == { k \in { RespStart(b) + 1, (RespStart(b) + RespLen(b)) \div 2, RespLen(b) } : k > RespStart(b) /\ k <= RespLen(b) }
+\* "a1;x;y, a2;x;y, ..." : n axes of two values each
+AxesValue(n) == Concat([i \in 1..n |-> (IF i > 1 THEN <<44, 32>> ELSE <<>>) \o <<97>> \o U64ToDec(U64(i)) \o <<59, 120, 59, 121>>])
 Unknown(k) == [name |-> <<122,122,122>>, body |-> Rep(k, 0)]
 InsAt(s, p, e) == SubSeq(s, 1, p - 1) \o <<e>> \o SubSeq(s, p, Len(s))
 RemAt(s, p) == SubSeq(s, 1, p - 1) \o SubSeq(s, p + 1, Len(s))
@@ -68,6 +70,9 @@ Muts(b) ==
   \cup { [kind |-> "swap", i |-> i, j |-> j, v |-> U64Zero] : i \in 1..n, j \in 1..n }
   \cup { [kind |-> "dupname", i |-> i, j |-> j, v |-> U64Zero] : i \in 1..n, j \in 1..n }
   \cup { [kind |-> "unknown", i |-> p, j |-> k, v |-> U64Zero] : p \in 1..n, k \in {0, 1, 7} }
+  \* b1: an index entry whose variants-value has so many axes that the number of possible keys leaves 64 bits
+  \* (2^62, 2^63, 2^64, 2^70) or just exceeds the cap (2^14), followed by no location at all or by one
+  \cup (IF b.ver = "b1" THEN { [kind |-> "manyaxes", i |-> ax, j |-> np, v |-> U64Zero] : ax \in {13, 14, 62, 63, 64, 70}, np \in {0, 1} } ELSE {})
   \* a section the writer never emits for this version ("manifest" in b2, "primary" in b1), holding a URL,
   \* at every position: whatever the reader makes of it, the sections after it stay where the lengths put them
   \cup { [kind |-> "foreign", i |-> p, j |-> 0, v |-> U64Zero] : p \in 1..n }
@@ -107,6 +112,10 @@ Apply(b, m) ==
     [] m.kind = "swap" -> Build(b, Swap(t, m.i, m.j), 2 * n, n, Swap(bd, m.i, m.j))
     [] m.kind = "dupname" -> Build(b, [t EXCEPT ![m.i].name = t[m.j].name], 2 * n, n, bd)
     [] m.kind = "unknown" -> Build(b, InsAt(t, m.i, [name |-> Unknown(m.j).name, len |-> U64(m.j)]), 2 * n + 2, n + 1, InsAt(bd, m.i, Unknown(m.j).body))
+    [] m.kind = "manyaxes" ->
+         LET vv == AxesValue(m.i)
+             ix == EncMap(<< [k |-> EncText(b.exs[1].url), v |-> EncArrayHdr(1 + 2 * m.j) \o EncBytes(vv) \o (IF m.j = 1 THEN EncUint(U64Zero) \o EncUint(U64(1)) ELSE <<>>)] >>)
+         IN Build(b, [t EXCEPT ![1].len = U64(Len(ix))], 2 * n, n, [bd EXCEPT ![1] = ix])
     [] m.kind = "foreign" ->
          LET nm == IF b.ver = "b2" THEN S_manifest ELSE S_primary
              body == EncText(<<104,116,116,112,115,58,47,47,97,46,116,101,115,116,47,109>>)       \* https://a.test/m
@@ -144,7 +153,7 @@ UnmutatedReads == mut.kind = "none" => X.res = "ok" /\ X.exs = ExpectedRead(Base
 UnknownSkipped == mut.kind = "unknown" => X.res = "ok" /\ X.exs = ExpectedRead(BaseBundle(base))
 \* declared lengths pointing outside the file, wrapping offsets, responses not last, duplicates: refused
 OutOfBoundsRefused ==
-  /\ mut.kind \in {"idxwrap", "idxwrap2", "dupname", "unknownlast"} => (X.res = "err" \/ (mut.kind = "dupname" /\ mut.i = mut.j))
+  /\ mut.kind \in {"idxwrap", "idxwrap2", "dupname", "unknownlast", "manyaxes"} => (X.res = "err" \/ (mut.kind = "dupname" /\ mut.i = mut.j))
   /\ (mut.kind = "seclen" /\ ~IsSmall(mut.v)) => X.res = "err"
   /\ (mut.kind \in {"idxoff", "idxlen"} /\ ~IsSmall(mut.v)) => X.res = "err"
 \* whatever is extracted comes from the file: never more exchanges than index locations, never content of another base
